@@ -1143,3 +1143,304 @@ func (c *Ctx) ruleDirPrune() {
 		}
 	}
 }
+
+// R-WINDOW: the pruning loop of the equivocation store never deletes a slot the early-out still accepts.
+func (c *Ctx) ruleSlotWindow() {
+	f := c.fn("dot/state", "(*SlotState).CheckEquivocation")
+	if f == nil {
+		return
+	}
+	c.doc("R-WINDOW", "CheckEquivocation: the early-out rejects a slot when SaturatingSub(slotNow, slot) OP1 maxSlotCapacity; the pruning loop deletes slot s while s OP2 SaturatingSub(slotNow, maxSlotCapacity). The two must be complementary: (OP1, OP2) is (>, <) or (>=, <=), so that every slot still accepted for checking keeps its record")
+	isCap := func(v ssa.Value) bool {
+		for x := range backwardSlice(v, nil) {
+			if u, ok := x.(*ssa.UnOp); ok {
+				if g, ok := u.X.(*ssa.Global); ok && g.Name() == "maxSlotCapacity" {
+					return true
+				}
+			}
+			if k, ok := constInt(x); ok && k == 1000 {
+				return true
+			}
+		}
+		return false
+	}
+	satSub := func(v ssa.Value) *ssa.Call {
+		cl, ok := stripConv(v).(*ssa.Call)
+		if ok && strings.Contains(calleeName(&cl.Call), "SaturatingSub") {
+			return cl
+		}
+		return nil
+	}
+	var op1, op2 token.Token
+	eachInstr(f, func(b *ssa.BasicBlock, _ int, in ssa.Instruction) {
+		bo, ok := in.(*ssa.BinOp)
+		if !ok || !isCmp(bo.Op) {
+			return
+		}
+		// early-out: SaturatingSub(slotNow, slot) OP cap
+		if cl := satSub(bo.X); cl != nil && cl.Call.Args[0] == ssa.Value(f.Params[1]) && cl.Call.Args[1] == ssa.Value(f.Params[2]) && isCap(bo.Y) {
+			op1 = bo.Op
+		}
+		// loop: s OP newFirst where newFirst = SaturatingSub(slotNow, cap) and s is a loop phi
+		if _, isPhi := bo.X.(*ssa.Phi); isPhi {
+			for _, y := range phiInputs(bo.Y) {
+				if cl := satSub(y); cl != nil && cl.Call.Args[0] == ssa.Value(f.Params[1]) && isCap(cl.Call.Args[1]) {
+					if iff := ifOf(b); iff != nil && iff.Cond == ssa.Value(bo) {
+						op2 = bo.Op
+					}
+				}
+			}
+		}
+	})
+	ok := (op1 == token.GTR && op2 == token.LSS) || (op1 == token.GEQ && op2 == token.LEQ)
+	c.ob("R-WINDOW", "CheckEquivocation:prune-bound-complements-early-out", f.Pos(), ok,
+		fmt.Sprintf("early-out: age %s capacity; deletion loop: s %s slotNow-capacity — a slot that is still accepted for checking (age == capacity) must not lose its record, otherwise a conflicting header at that slot yields no proof", op1, op2))
+}
+
+// R-OVERLAY/prefixkeys: inside a transaction, a prefix clear collects EVERY base-state key starting with the prefix.
+func (c *Ctx) rulePrefixKeys() {
+	sp := c.ssaPkg(rtStorageDir)
+	if sp == nil {
+		return
+	}
+	c.doc("R-OVERLAY/prefixkeys", "lib/runtime/storage: every loop that collects the base-state keys of a prefix from PrefixedIter(prefix).NextKey() (a) continues only while the key is non-nil (bytes.HasPrefix(nil, prefix) is true for the empty prefix: the loop would never end) and (b) is accompanied, in the same function, by a lookup of the key EQUAL to the prefix on the same trie (the iterator is positioned at the prefix and yields only the keys after it)")
+	n := 0
+	for _, f := range allFuncs(c, sp) {
+		eachInstr(f, func(_ *ssa.BasicBlock, _ int, in ssa.Instruction) {
+			pc, ok := in.(*ssa.Call)
+			if !ok || !pc.Call.IsInvoke() || pc.Call.Method.Name() != "PrefixedIter" || len(pc.Call.Args) != 1 {
+				return
+			}
+			prefix := pc.Call.Args[0]
+			// NextKey calls on this iterator whose result is tested with HasPrefix(key, prefix)
+			var keyVals []ssa.Value
+			collect := false
+			for _, r := range *pc.Referrers() {
+				nk, ok := r.(*ssa.Call)
+				if !ok || !nk.Call.IsInvoke() || nk.Call.Method.Name() != "NextKey" {
+					continue
+				}
+				keyVals = append(keyVals, nk)
+			}
+			if len(keyVals) == 0 {
+				return // NextKeyFunc idiom (next key on state), not a prefix collection
+			}
+			var hp *ssa.Call
+			eachInstr(f, func(_ *ssa.BasicBlock, _ int, in2 ssa.Instruction) {
+				if cl, ok := in2.(*ssa.Call); ok && calleeName(&cl.Call) == "bytes.HasPrefix" && sameValue(cl.Call.Args[1], prefix) {
+					for _, kv := range phiInputs(cl.Call.Args[0]) {
+						for _, k := range keyVals {
+							if kv == k {
+								hp, collect = cl, true
+							}
+						}
+					}
+				}
+			})
+			if !collect {
+				return
+			}
+			n++
+			// (a) the loop body is guarded by key != nil
+			nilGuard := false
+			for _, ref := range *hp.Referrers() {
+				_ = ref
+			}
+			eachInstr(f, func(b *ssa.BasicBlock, _ int, in2 ssa.Instruction) {
+				cl, ok := in2.(*ssa.Call)
+				if !ok {
+					return
+				}
+				if bi, ok := cl.Call.Value.(*ssa.Builtin); !ok || bi.Name() != "append" {
+					return
+				}
+				uses := false
+				for v := range backwardSlice(cl, func(v ssa.Value) bool { _, isPhi := v.(*ssa.Phi); return isPhi && v.Type().String() != "[]byte" }) {
+					for _, k := range keyVals {
+						if v == k {
+							uses = true
+						}
+					}
+				}
+				if !uses {
+					return
+				}
+				for _, fc := range factsAt(b) {
+					if e, neq, isN := nilCmp(fc.cond); isN && fc.truth == neq {
+						for _, kv := range phiInputs(e) {
+							for _, k := range keyVals {
+								if kv == k {
+									nilGuard = true
+								}
+							}
+						}
+					}
+				}
+			})
+			c.ob("R-OVERLAY/prefixkeys", fmt.Sprintf("%s:collect#%d:stops-at-exhausted-iterator", relName(f.String()), n), pc.Pos(), nilGuard,
+				shortFn(f)+" keeps iterating while bytes.HasPrefix(key, prefix) only: once the iterator is exhausted NextKey returns nil and HasPrefix(nil, empty prefix) is true — clearing the empty prefix inside a transaction never terminates")
+			// (b) the key equal to the prefix is looked up on the same trie
+			exact := false
+			eachInstr(f, func(_ *ssa.BasicBlock, _ int, in2 ssa.Instruction) {
+				if cl, ok := in2.(*ssa.Call); ok && cl.Call.IsInvoke() && cl.Call.Method.Name() == "Get" && len(cl.Call.Args) == 1 &&
+					sameValue(cl.Call.Args[0], prefix) && sameValue(cl.Call.Value, pc.Call.Value) {
+					exact = true
+				}
+			})
+			c.ob("R-OVERLAY/prefixkeys", fmt.Sprintf("%s:collect#%d:includes-key-equal-to-prefix", relName(f.String()), n), pc.Pos(), exact,
+				shortFn(f)+" collects the keys to clear from an iterator positioned AT the prefix, which yields only the keys after it: a base-state key equal to the prefix survives the prefix clear of a transaction")
+		})
+	}
+	if n == 0 {
+		c.ob("R-OVERLAY/prefixkeys", "collect", token.NoPos, false, "no prefix-collection loop found in lib/runtime/storage (anchor changed)")
+	}
+}
+
+// R-FORMULA: the floating-point expression of the BABE threshold is Substrate's, operation for operation.
+func (c *Ctx) ruleThresholdExpr() {
+	f := c.fn("lib/babe", "CalculateThreshold")
+	if f == nil {
+		return
+	}
+	c.doc("R-FORMULA", "CalculateThreshold: the float64 handed to big.Rat.SetFloat64 is, on every path, the operation tree 1 - pow(1 - f64(C1)/f64(C2), 1/f64(numAuths)) (Substrate: 1 - (1 - c).powf(1/n)); a path-dependent or re-associated expression rounds differently for some (c, n) and moves the threshold; the scaling constant is 1 << 128")
+	var show func(v ssa.Value, d int) string
+	show = func(v ssa.Value, d int) string {
+		if d > 12 {
+			return "…"
+		}
+		switch x := v.(type) {
+		case *ssa.Const:
+			if x.Value != nil {
+				return x.Value.ExactString()
+			}
+			return "nil"
+		case *ssa.Parameter:
+			return x.Name()
+		case *ssa.Convert:
+			return "f64(" + show(x.X, d+1) + ")"
+		case *ssa.ChangeType:
+			return show(x.X, d+1)
+		case *ssa.BinOp:
+			return "(" + show(x.X, d+1) + " " + x.Op.String() + " " + show(x.Y, d+1) + ")"
+		case *ssa.Call:
+			nm := calleeName(&x.Call)
+			var args []string
+			for _, a := range x.Call.Args {
+				args = append(args, show(a, d+1))
+			}
+			return nm + "(" + strings.Join(args, ", ") + ")"
+		case *ssa.Phi:
+			var e []string
+			for _, a := range x.Edges {
+				e = append(e, show(a, d+1))
+			}
+			return "PATH-DEPENDENT{" + strings.Join(e, " | ") + "}"
+		}
+		return fmt.Sprintf("?%T", v)
+	}
+	found := false
+	eachInstr(f, func(_ *ssa.BasicBlock, _ int, in ssa.Instruction) {
+		call, ok := in.(*ssa.Call)
+		if !ok || calleeName(&call.Call) != "(*math/big.Rat).SetFloat64" {
+			return
+		}
+		found = true
+		got := show(call.Call.Args[1], 0)
+		// parameter names are positional
+		p0, p1, p2 := f.Params[0].Name(), f.Params[1].Name(), f.Params[2].Name()
+		want := fmt.Sprintf("(1 - math.Pow((1 - (f64(%s) / f64(%s))), (1 / f64(%s))))", p0, p1, p2)
+		c.ob("R-FORMULA", "CalculateThreshold:p=1-(1-c)^(1/n)", call.Pos(), got == want, "probability expression is "+got+", specification "+want)
+	})
+	if !found {
+		c.ob("R-FORMULA", "CalculateThreshold:p", f.Pos(), false, "big.Rat.SetFloat64 is not called (anchor changed)")
+	}
+	shifts := map[int64]bool{}
+	eachInstr(f, func(_ *ssa.BasicBlock, _ int, in ssa.Instruction) {
+		if call, ok := in.(*ssa.Call); ok && calleeName(&call.Call) == "(*math/big.Int).Lsh" {
+			if k, ok := constInt(call.Call.Args[2]); ok {
+				shifts[k] = true
+			}
+		}
+	})
+	c.ob("R-FORMULA", "CalculateThreshold:scale=2^128", f.Pos(), shifts[128] && len(shifts) == 1, fmt.Sprintf("the probability is scaled by 1 << 128 (shifts found: %v)", shifts))
+}
+
+// R-STAGEMAPS: code selected by the vote stage touches that stage's containers only.
+func (c *Ctx) ruleStageMaps() {
+	sp := c.ssaPkg(gDir)
+	if sp == nil {
+		return
+	}
+	c.doc("R-STAGEMAPS", "lib/grandpa: in every branch selected by comparing a Subround with prevote/precommit, the Service containers touched belong to that stage (prevote, primaryProposal: prevotes, pvEquivocations; precommit: precommits, pcEquivocations). A vote removed from, stored into or counted from the other stage's container makes a voter count twice or not at all in the tally the finalisation gate compares with the threshold")
+	family := map[string]string{"prevotes": "prevote", "pvEquivocations": "prevote", "precommits": "precommit", "pcEquivocations": "precommit"}
+	stageOf := func(v ssa.Value) string {
+		if u, ok := v.(*ssa.UnOp); ok && u.Op == token.MUL {
+			if g, ok := u.X.(*ssa.Global); ok {
+				switch g.Name() {
+				case "prevote", "primaryProposal":
+					return "prevote"
+				case "precommit":
+					return "precommit"
+				}
+			}
+		}
+		return ""
+	}
+	n := 0
+	perFn := map[*ssa.Function]int{}
+	for _, f := range allFuncs(c, sp) {
+		for _, b := range f.Blocks {
+			iff := ifOf(b)
+			if iff == nil {
+				continue
+			}
+			bo, ok := iff.Cond.(*ssa.BinOp)
+			if !ok || (bo.Op != token.EQL && bo.Op != token.NEQ) || !strings.HasSuffix(bo.X.Type().String(), "Subround") {
+				continue
+			}
+			st := stageOf(bo.Y)
+			if st == "" {
+				st = stageOf(bo.X)
+			}
+			if st == "" {
+				continue
+			}
+			si := 0
+			if bo.Op == token.NEQ {
+				si = 1
+			}
+			// blocks reachable only through the "is this stage" edge, up to the next stage test or the join
+			var wrong []string
+			touched := 0
+			for _, tb := range f.Blocks {
+				if tb == b || !edgeDominates(b, si, tb) {
+					continue
+				}
+				for _, in := range tb.Instrs {
+					fa, ok := in.(*ssa.FieldAddr)
+					if !ok || fieldVar(fa) == nil {
+						continue
+					}
+					fam, known := family[fieldVar(fa).Name()]
+					if !known || !strings.HasSuffix(namedType(fa.X.Type()), "grandpa.Service") {
+						continue
+					}
+					touched++
+					if fam != st {
+						wrong = append(wrong, fieldVar(fa).Name()+" at "+c.pos(fa.Pos()))
+					}
+				}
+			}
+			if touched == 0 {
+				continue
+			}
+			n++
+			perFn[f]++
+			c.ob("R-STAGEMAPS", fmt.Sprintf("%s:%s-branch#%d", relName(f.String()), st, perFn[f]), iff.Pos(), len(wrong) == 0,
+				fmt.Sprintf("the %s branch of %s touches the other stage's container: %s", st, shortFn(f), strings.Join(wrong, ", ")))
+		}
+	}
+	if n == 0 {
+		c.ob("R-STAGEMAPS", "branches", token.NoPos, false, "no stage-selected branch touching a vote container found (anchor changed)")
+	}
+}
